@@ -337,7 +337,8 @@ def run(ctx):
     bounds = []
     for (nmsgs, faults, early, depth, *topo) in ctx.pick([(1, 2, 1, 40), (2, 1, 0, 40), (1, 1, 0, 40, "fanin")],
                                                          [(1, 3, 2, 60), (2, 2, 1, 60), (2, 3, 0, 60), (3, 1, 0, 60), (2, 1, 0, 60, "fanin"), (1, 2, 1, 60, "fanin")]):
-        cfg, r = core(ctx, nmsgs, faults, early, depth, ctx.pick(900, 900), topo[0] if topo else "pair")
+        # thorough: each configuration is explored to closure or for 10 minutes, whichever comes first (reported as capped)
+        cfg, r = core(ctx, nmsgs, faults, early, depth, ctx.pick(900, 600), topo[0] if topo else "pair")
         tot_states += r["states"]
         tot_trans += r["transitions"]
         bounds.append({"topology": topo[0] if topo else "pair", "messages_per_direction": nmsgs, "fault_budget": faults, "early_timer_budget": early, "depth_completed": r["depth"], "closed": r["closed"], "states": r["states"], "capped": r["capped"]})
